@@ -374,7 +374,7 @@ func runC03(c *Check, a *Analysis) {
 func pendingOps2(p *Prog, fn *ssa.Function, kind string) []MapOp {
 	var out []MapOp
 	for _, m := range pendingOps(p, kind) {
-		if topParent(m.Fn) == fn {
+		if topParent(m.Fn) == fn || p.sameFn(topParent(m.Fn), fn) {
 			out = append(out, m)
 		}
 	}
